@@ -10,7 +10,8 @@ import Driver.Util
         -> act=<int> stack=<n> m2=<0|1> dirty=<i,i,…|-> trace=<a:s;…|->
   peg <tok>…                            recogniser, tok = dot-separated ids of the terminals matching the token (`-` none)
         -> pass1=<ok e|fail e|raise|hang> parse=<ok e|raise|hang>
-  pegfuel <n>                           -> the fuel bound used for n tokens -/
+  pegfuel <n>                           -> the fuel bound used for n tokens
+  frontdata                             -> names=<n,n,…> writes=<i,…> guarded=<0|1> leaks=<i,…|->  (the data the machine runs on) -/
 namespace Driver.C10
 open Driver Scenic.PegTotal Scenic.FrontState Scenic.Gen
 
@@ -62,7 +63,12 @@ def runPeg (toks : List String) : String :=
     let full := parse E pegGrammar fuel pegStart ()
     s!"pass1={showRes p1} parse={showRes full}"
 
+def showFrontData : String :=
+  s!"names={showList frontGlobalNames ","} writes={showList (frontData.compileWrites.map toString) ","} " ++
+  s!"guarded={if frontData.sfsGuarded then 1 else 0} leaks={showList ((leaks frontData).map toString) ","}"
+
 def handle : List String → String
+  | ["frontdata"] => showFrontData
   | "front" :: g :: o :: toks => runFront g o toks
   | "peg" :: toks => runPeg toks
   | ["pegfuel", n] => match n.toNat? with
